@@ -244,6 +244,7 @@ def run(rep: core.Report):
     _r16o(rep)
     _r16p(rep)
     _r16r(rep)
+    _r16s(rep)
     _r16n(rep)
     _r16j(rep)
     from rules import c03
@@ -920,6 +921,35 @@ def _r16r(rep):
                      f"with primitive_matrix={arg!r} passed to load() and {'no primitive_matrix entry' if filev is None else 'a primitive_matrix entry'} in the phonopy.yaml, the Phonopy object is built with {got!r} instead of {want}: the reloaded primitive cell (and everything stored per primitive atom: Born charges, compact force constants) is not the one that was saved", line=fn.lineno)
 
 
+def _r16s(rep):
+    """forces_in_dataset, the test save() and the loaders use, over the shapes a dataset can have."""
+    from engine import pyeval
+
+    DS = "phonopy/structure/dataset.py"
+    rep.rule("R16s", "forces_in_dataset evaluated over the dataset shapes (type 1 with forces in all / some / none of the displaced supercells, type 2 with and without forces): it says True only when *every* displaced supercell has forces -- it decides whether save() must write the force constants, so a partly filled dataset counted as complete loses them on reload", 5)
+    fn = core.find_def(DS, "forces_in_dataset")
+    tree = core.parse(DS)
+    cases = [
+        ("type 1, forces everywhere", {"natom": 2, "first_atoms": [{"number": 0, "forces": "F0"}, {"number": 1, "forces": "F1"}]}, True),
+        ("type 1, forces in the first supercell only", {"natom": 2, "first_atoms": [{"number": 0, "forces": "F0"}, {"number": 1}]}, False),
+        ("type 1, forces in the last supercell only", {"natom": 2, "first_atoms": [{"number": 0}, {"number": 1, "forces": "F1"}]}, False),
+        ("type 1, no forces", {"natom": 2, "first_atoms": [{"number": 0}, {"number": 1}]}, False),
+        ("type 2, forces", {"displacements": "D", "forces": "F"}, True),
+        ("type 2, no forces", {"displacements": "D"}, False),
+    ]
+    for label, ds, want in cases:
+        E = pyeval.Evaluator(tree, hooks={"isinstance": lambda *a: True, "type": lambda x: dict, "len": lambda x: len(x) if isinstance(x, (list, dict, tuple)) else pyeval.Opaque("len")}, where="forces_in_dataset")
+        E.lenient_names = True
+        try:
+            got = E.call(fn, [ds])
+        except pyeval.Unknown as ex:
+            raise AnalysisError(f"R16s: forces_in_dataset cannot be evaluated for '{label}' ({ex})")
+        except pyeval.Raised as ex:
+            got = f"raises {ex}"
+        rep.instance("R16s", DS, "forces_in_dataset", f"{label}: {got}", got is want,
+                     f"forces_in_dataset says {got} for a dataset of the kind '{label}' (expected {want}): Phonopy.save() then decides wrongly whether the force constants have to be written, and the loader whether forces are available -- a yaml file saved from a half-finished set of supercell calculations comes back without force constants", line=fn.lineno)
+
+
 def _r16p(rep):
     """Which force constants phonopy.load() takes, evaluated over every combination of what is available."""
     import itertools
@@ -1213,6 +1243,8 @@ def selftest():
     YML_ = "phonopy/interface/phonopy_yaml.py"
     b("dataset section only under the displacements setting", YML_, "        lines = []\n        if (\n            self._dumper_settings[\"force_sets\"]\n            or self._dumper_settings[\"displacements\"]\n        ):\n            disp_yaml_lines = self._displacements_yaml_lines(\n                with_forces=self._dumper_settings[\"force_sets\"]\n            )\n            lines += disp_yaml_lines\n        return lines\n", "        if not self._dumper_settings[\"displacements\"]:\n            return []\n        return self._displacements_yaml_lines(\n            with_forces=self._dumper_settings[\"force_sets\"]\n        )\n", "R16l", "_dataset_yaml_lines")
     n("dataset section with early return on both settings off", YML_, "        lines = []\n        if (\n            self._dumper_settings[\"force_sets\"]\n            or self._dumper_settings[\"displacements\"]\n        ):\n            disp_yaml_lines = self._displacements_yaml_lines(\n                with_forces=self._dumper_settings[\"force_sets\"]\n            )\n            lines += disp_yaml_lines\n        return lines\n", "        with_forces = self._dumper_settings[\"force_sets\"]\n        if not (with_forces or self._dumper_settings[\"displacements\"]):\n            return []\n        return self._displacements_yaml_lines(with_forces=with_forces)\n")
+    b("forces_in_dataset: any displaced supercell with forces counts", "phonopy/structure/dataset.py", "        for d in dataset[\"first_atoms\"]:\n            if \"forces\" not in d:\n                return False\n        return True\n", "        return any(\"forces\" in d for d in dataset[\"first_atoms\"])\n", "R16s", "forces_in_dataset")
+    n("forces_in_dataset: every displaced supercell, as a builtin", "phonopy/structure/dataset.py", "        for d in dataset[\"first_atoms\"]:\n            if \"forces\" not in d:\n                return False\n        return True\n", "        return all(\"forces\" in d for d in dataset[\"first_atoms\"])\n")
     b("hdf5 force constants read without the calculator of the object", "phonopy/cui/load_helper.py", "            p2s_map=p2s_map,\n            calculator=phonon.calculator,\n        )", "            p2s_map=p2s_map,\n        )", "R16y.ctxparam", "_read_force_constants_file")
     n("hdf5 force constants read with the calculator through a local", "phonopy/cui/load_helper.py", "    p2s_map = phonon.primitive.p2s_map\n    if len(dot_split) > 1 and dot_split[-1] == \"hdf5\":\n        _fc = read_force_constants_from_hdf5(\n            filename=force_constants_filename,\n            p2s_map=p2s_map,\n            calculator=phonon.calculator,\n        )", "    p2s_map = phonon.primitive.p2s_map\n    calc = phonon.calculator\n    if len(dot_split) > 1 and dot_split[-1] == \"hdf5\":\n        _fc = read_force_constants_from_hdf5(\n            filename=force_constants_filename,\n            p2s_map=p2s_map,\n            calculator=calc,\n        )")
     b("load(): file without a primitive matrix falls through to the automatic guess", "phonopy/cui/load.py", "        else:\n            pmat = phpy_yaml.primitive_matrix\n", "        elif phpy_yaml.primitive_matrix is not None:\n            pmat = phpy_yaml.primitive_matrix\n        else:\n            pmat = get_primitive_matrix(\"auto\", symprec=symprec)\n", "R16r", "load")
